@@ -446,10 +446,23 @@ static frg::expected<Err, int> try_chain(frg::expected<Err, Tracked> in, frg::ex
 	Tracked t = FRG_TRY(std::move(in));
 	return val(t) + 1;
 }
+// manual_box with static storage duration (what it is for): it is filled during static initialisation by an object that
+// is initialised BEFORE it in this translation unit.  With std::optional (constant-initialised) the value is still there
+// when main() runs; a box whose constructor runs as a dynamic initialiser afterwards would wipe it.
+extern frg::manual_box<int> g_static_box;
+extern frg::manual_box<std::pair<long, long>> g_static_box2;
+struct EarlyFiller { EarlyFiller() { g_static_box.initialize(42); g_static_box2.initialize(7L, 9L); } };
+static EarlyFiller g_early_filler;
+frg::manual_box<int> g_static_box;
+frg::manual_box<std::pair<long, long>> g_static_box2;
+
 static InstResult small_holders() {
 	InstResult r; r.name = "expected-void-try-eternal"; r.complete = true;
 	auto bad = [&](const std::string &sig, const std::string &msg) { r.add_violation({"C17", sig, msg}, sig); };
 	auto tick = [&] { r.evaluations++; r.distinct++; };
+	tick();
+	if(!g_static_box.valid() || *g_static_box != 42 || !g_static_box2.valid() || g_static_box2->first != 7 || g_static_box2->second != 9)
+		bad("manual_box:static-initialisation", "a manual_box with static storage duration that was initialised during static initialisation (by an earlier object of the same translation unit) is empty or holds another value when main() runs");
 	world_reset();
 	// expected<E, void>: every state x every accessor
 	for(int st = 0; st < 4; st++) {
